@@ -10,6 +10,8 @@ class Ctx:
         self.cov = {}
         self.assumptions = []
         self.bd = None
+        self.broken_proof = None
+        self.pending_broken = None
 
 COQC_CMD = "cd /verif/coq && coq_makefile -f _CoqProject -o Makefile && make -k -j16 theories/Properties_%s.vo   # coqc 8.16.1, full .vo, kernel-checked; Print Assumptions under every theorem"
 
@@ -33,52 +35,56 @@ def enclosing(vfile, ln):
     return None
 
 def run_coq(ctx, P):
-    """Build Properties_<ID>.vo.  Returns coverage and violations (with failing-input search
-    delegated to P['proof_search'] when a proof obligation breaks)."""
+    """Build the property's theorem files (default Properties_<ID>.v).  Returns coverage and
+    violations (failing-input search delegated to P['proof_search'] when an obligation breaks)."""
     pid = ctx.pid
-    vfile = os.path.join(vlib.COQ, "theories", "Properties_%s.v" % pid)
+    files = P.get("coq_files", ["Properties_%s.v" % pid])
+    files = [f for f in files if os.path.exists(os.path.join(vlib.COQ, "theories", f))]
     out = {"violations": [], "coverage": {}}
-    if not os.path.exists(vfile):
+    if not files:
         return out
-    names = theorem_names(vfile)
-    target = "theories/Properties_%s.vo" % pid
-    # a stale .vo must not hide a broken proof: make decides from timestamps of the sources,
-    # and Gen/* files are rewritten only when their content changes
-    rc, mk, secs = vlib.coq_make([target], timeout=P.get("coq_timeout", 2400))
+    names = []
+    for f in files:
+        names += theorem_names(os.path.join(vlib.COQ, "theories", f))
+    targets = ["theories/" + f[:-2] + ".vo" for f in files]
+    rc, mk, secs = vlib.coq_make(targets, timeout=P.get("coq_timeout", 2400))
     bad = vlib.scan_forbidden()
-    closed, axioms = vlib.parse_assumptions(mk)
-    if rc == 0 and not os.path.exists(os.path.join(vlib.COQ, target)):
-        rc = 1
-    # Print Assumptions output is only produced when the file is (re)compiled; recompile the
-    # property file alone when make found it up to date, so that every run reports it
-    if rc == 0 and "Closed under the global context" not in mk and "Axioms:" not in mk:
-        rc2, mk2, _ = vlib.run(["coqc", "-Q", "theories", "Upa", "-w", "-notation-overridden,-deprecated-hint-without-locality,-deprecated-syntactic-definition",
-                                "theories/Properties_%s.v" % pid], cwd=vlib.COQ, timeout=P.get("coq_timeout", 2400))
-        mk += mk2
-        if rc2 != 0:
-            rc = rc2
-        closed, axioms = vlib.parse_assumptions(mk2)
-    foreign = sorted(a for a in axioms if a.split(".")[-1] not in {x.split(".")[-1] for x in vlib.ALLOWED_AXIOMS})
+    for t in targets:
+        if rc == 0 and not os.path.exists(os.path.join(vlib.COQ, t)):
+            rc = 1
+    # Print Assumptions output is only produced when a file is (re)compiled: recompile the
+    # property files alone when make found them up to date, so that every run reports it
+    pa_text = ""
+    if rc == 0:
+        for f in files:
+            rc2, mk2, _ = vlib.run(["coqc", "-Q", "theories", "Upa", "-w", "-notation-overridden,-deprecated-hint-without-locality,-deprecated-syntactic-definition",
+                                    "theories/" + f], cwd=vlib.COQ, timeout=P.get("coq_timeout", 2400))
+            pa_text += mk2
+            if rc2 != 0:
+                rc = rc2; mk += mk2
+    closed, axioms = vlib.parse_assumptions(pa_text)
+    allowed_short = {x.split(".")[-1] for x in vlib.ALLOWED_AXIOMS}
+    foreign = sorted(a for a in axioms if a.split(".")[-1] not in allowed_short)
     obligations = len(names)
     discharged = obligations if rc == 0 else 0
     fails = []
     if rc != 0:
-        items = failing_items(mk)
-        for f, ln in items:
+        for f, ln in failing_items(mk):
             fails.append({"file": f, "line": ln, "item": enclosing(os.path.join(vlib.COQ, f), ln)})
         if not fails:
-            fails.append({"file": target, "line": 0, "item": None, "make_tail": mk[-1500:]})
-        # obligations of the property file that still check = those before the first failing line
-        first_in_prop = [x["line"] for x in fails if x["file"].endswith("Properties_%s.v" % pid)]
-        if first_in_prop and len(fails) == len(first_in_prop):
-            with open(vfile) as fh:
-                src = fh.read().split("\n")
-            discharged = sum(1 for n in names if any(re.match(r"\s*(?:Theorem|Corollary)\s+%s\b" % re.escape(n), l) for l in src[:min(first_in_prop) - 1]))
-    tb = ["Coq 8.16.1 kernel (coqc), vm_compute for finite sweeps; no native_compute",
-          "Print Assumptions: %d theorem(s) 'Closed under the global context'" % closed]
+            fails.append({"file": ",".join(targets), "line": 0, "item": None, "make_tail": mk[-1500:]})
+        broken_files = {x["file"] for x in fails}
+        ok_names = []
+        for f in files:
+            if not any(b.endswith(f) for b in broken_files) and os.path.exists(os.path.join(vlib.COQ, "theories", f[:-2] + ".vo")):
+                ok_names += theorem_names(os.path.join(vlib.COQ, "theories", f))
+        discharged = len(ok_names) if all(x["file"].startswith("theories/Properties_") for x in fails) else 0
+    tb = ["Coq 8.16.1 kernel (coqc, full .vo build), vm_compute for finite sweeps; no native_compute",
+          "Print Assumptions: %d theorem(s) 'Closed under the global context'%s" % (closed, "" if not axioms else "; axioms listed: " + ", ".join(sorted(axioms)))]
     tb += ["axiom (Coq standard library): " + a for a in sorted(axioms) if a not in foreign]
     tb += P.get("trusted_base", [])
-    out["coverage"] = {"obligations": obligations, "discharged": discharged, "checker_cmd": COQC_CMD % pid,
+    out["coverage"] = {"obligations": obligations, "discharged": discharged,
+                       "checker_cmd": "cd /verif/coq && coq_makefile -f _CoqProject -o Makefile && make -k -j16 %s   # coqc 8.16.1; then coqc on each property file for Print Assumptions" % " ".join(targets),
                        "trusted_base": tb, "theorems": names, "coq_wall_s": round(secs, 1)}
     if bad:
         rp = vlib.write_replay(pid, "forbidden_constructs", {"kind": "development-not-closed", "items": bad})
@@ -93,14 +99,14 @@ def run_coq(ctx, P):
                 found = P["proof_search"](ctx, P, fails, mk) or []
             except Exception as e:   # the search itself must not hide the broken proof
                 log("proof_search failed: %r" % (e,))
+        ctx.broken_proof = {"failing": fails, "found": bool(found)}
         if found:
             for rp, text in found:
                 out["violations"].append((rp, text, False))
         else:
-            rp = vlib.write_replay(pid, "broken_proof", {"kind": "broken-proof-obligation", "failing": fails,
-                                   "note": "no concrete failing input was found by the search; the theorem(s) named here no longer check against the current source",
-                                   "make_output_tail": mk[-3000:]})
-            out["violations"].append((rp, "proof obligation(s) no longer check: %s" % [x["item"] for x in fails], True))
+            ctx.pending_broken = {"kind": "broken-proof-obligation", "failing": fails,
+                                  "note": "the theorem(s) named here no longer check against the current source",
+                                  "make_output_tail": mk[-3000:]}
     return out
 
 # ------------------------------------------------------------------------------------------
@@ -185,19 +191,19 @@ PROPS = {
             "translator T1: harness/dump_tables.cpp compiled by g++ in -std=c++11/14/17/20 against /repo's current headers and sources (-fno-access-control) + harness/gen_tables.py",
             "Spec.CodePoints: hand transcription of the Standard's set definitions (DESIGN appendix A.1)"],
         assumptions=["the four language modes are exercised with g++ 12.2 only"]),
-    "C01": P("other", ["parse", "parse_exhaustive"], trusted_base=TB_CORR),
-    "C02": P("other", ["reparse"], trusted_base=TB_CORR),
-    "C03": P("other", ["setters"], trusted_base=TB_CORR),
-    "C05": P("other", ["histories"], trusted_base=TB_CORR),
-    "C06": P("other", ["histories"], trusted_base=TB_CORR),
-    "C07": P("other", ["host"], trusted_base=TB_CORR),
-    "C08": P("other", ["parse", "setters", "histories"], trusted_base=TB_CORR),
-    "C09": P("other", ["canparse"], trusted_base=TB_CORR),
+    "C01": P("exploration", ["parse", "parse_exhaustive"], trusted_base=TB_CORR),
+    "C02": P("exploration", ["reparse"], trusted_base=TB_CORR),
+    "C03": P("exploration", ["setters"], trusted_base=TB_CORR),
+    "C05": P("exploration", ["histories"], trusted_base=TB_CORR),
+    "C06": P("exploration", ["histories"], trusted_base=TB_CORR),
+    "C07": P("exploration", ["host"], trusted_base=TB_CORR),
+    "C08": P("exploration", ["parse", "setters", "histories"], trusted_base=TB_CORR),
+    "C09": P("exploration", ["canparse"], trusted_base=TB_CORR),
     "C10": P("proof", ["encodings"], trusted_base=TB_CORR),
     "C11": P("proof", ["ipv4"], trusted_base=TB_CORR),
     "C12": P("proof", ["ipv6"], trusted_base=TB_CORR),
     "C14": P("proof", ["percent"], trusted_base=TB_CORR),
     "C15": P("proof", ["urlenc"], trusted_base=TB_CORR),
-    "C16": P("proof", ["usp"], trusted_base=TB_CORR),
-    "C17": P("other", ["filepath"], trusted_base=TB_CORR),
+    "C16": P("proof", ["usp"], trusted_base=TB_CORR, coq_files=["Properties_C16.v", "Properties_C16_compare.v"]),
+    "C17": P("exploration", ["filepath"], trusted_base=TB_CORR),
 }
